@@ -20,13 +20,13 @@ pub static DEF: PropDef = PropDef {
     id: "C06",
     level: "exploration",
     engine: "ingest",
-    rule: "one run = a real Ingester (WAL on or off, object-store or in-memory catalog, flush_row_count 2..50, flush_interval 0.2..5 s, sometimes a tiny max_buffer_size) with 2..4 concurrent writer tasks issuing 3..8 writes each of 1..50-row batches (one write in seven re-sends the previous batch unchanged) over 4 schema variants (both timestamp types, nullable label, i64/u64/f64 extremes incl. NaN/-0/inf/subnormal, near-extreme timestamps) plus the flush timer and two subscribers; no faults; every object-store request and the post-WAL-append pause point is a seeded scheduling point; distinct = distinct grant sequence; non-trivial = completed AND writers/flushes interleaved",
+    rule: "one run = a real Ingester (WAL on or off, object-store or in-memory catalog, flush_row_count 2..50, flush_interval 0.2..5 s, sometimes a tiny max_buffer_size) with 2..4 concurrent writer tasks issuing 3..8 writes each of 1..50-row batches (one write in seven re-sends the previous batch unchanged) over 4 schema variants (both timestamp types, nullable label, i64/u64/f64 extremes incl. NaN/-0/inf/subnormal, near-extreme timestamps) plus the flush timer and two subscribers; no storage faults; requests go through the real Arrow-Flight and OTLP ingest handlers or straight to Ingester::write; a third of the runs drop one handler future in five at a seeded point (client disconnect; that request's rows may or may not be stored, everybody else's must be); every object-store request and the post-WAL-append pause point is a seeded scheduling point; distinct = distinct grant sequence; non-trivial = completed AND writers/flushes interleaved",
     quick_runs: 4000,
     thorough_runs: 60_000,
     run_cap_ms: 30_000,
     scen,
     extra_phase: None,
-    real: &["Ingester (write, buffer, threshold + timer flush, ParquetWriter, broadcast + topic broadcast)", "WriteAheadLog on the shim disk", "ObjectStoreMetadataClient / LocalMetadataClient"],
+    real: &["Ingester (write, buffer, threshold + timer flush, ParquetWriter, broadcast + topic broadcast)", "api::ingest::flight_ingest::FlightIngestService::process_stream, api::ingest::otlp::OtlpReceiver::ingest (request handlers)", "WriteAheadLog on the shim disk", "ObjectStoreMetadataClient / LocalMetadataClient"],
     stub: &["S3 = InMemory behind SimStore", "disk = tmpfs shim", "clock/entropy interposed"],
     assumptions: &["chunk time spans stay below 30 days (registration cost is linear in hour buckets spanned)", "subscribers keep up (channel capacity 1024 is never reached)"],
 };
@@ -99,11 +99,13 @@ fn scen(spec: RunSpec) -> ScenFut {
         let now = sim::EPOCH_NS as i64;
         let writers = sim::w_range(2, 4);
         let mut gen = RowGen::new();
-        let mut plans: Vec<Vec<(u32, Vec<Row>, u64)>> = Vec::new();
+        // a third of the runs contain client disconnects: the request's future is dropped at a seeded point
+        let with_cancel = sim::w(3) == 2;
+        let mut plans: Vec<Vec<(u32, Vec<Row>, u64, Option<u32>)>> = Vec::new();
         for _ in 0..writers {
             let base_variant = sim::w(4);
             let k = sim::w_range(3, 8);
-            let mut ops: Vec<(u32, Vec<Row>, u64)> = Vec::new();
+            let mut ops: Vec<(u32, Vec<Row>, u64, Option<u32>)> = Vec::new();
             for _ in 0..k {
                 // a client that re-sends a batch it already sent (a scrape delivered twice): every copy is an
                 // accepted write of its own, so every copy must be stored
@@ -127,24 +129,67 @@ fn scen(spec: RunSpec) -> ScenFut {
                     })
                     .collect();
                 let pause = [0u64, 0, 0, 100, 300, 1200][sim::w(6) as usize];
-                ops.push((variant, rows, pause));
+                let cancel = if with_cancel && sim::w(5) == 4 { Some(sim::w(10)) } else { None };
+                ops.push((variant, rows, pause, cancel));
             }
             plans.push(ops);
         }
         let accepted: Arc<Mutex<Vec<String>>> = Arc::new(Mutex::new(Vec::new()));
         let rejected: Arc<Mutex<Vec<String>>> = Arc::new(Mutex::new(Vec::new()));
+        // rows of requests whose future was dropped (client went away): they may or may not have been accepted
+        let maybe: Arc<Mutex<Vec<String>>> = Arc::new(Mutex::new(Vec::new()));
         let mut hs = Vec::new();
         for (wi, ops) in plans.into_iter().enumerate() {
             let ing = ing.clone();
             let accepted = accepted.clone();
             let rejected = rejected.clone();
+            let maybe = maybe.clone();
             hs.push(tokio::spawn(async move {
-                for (variant, rows, pause) in ops {
+                for (variant, rows, pause, cancel) in ops {
                     sim::yield_point(0, &format!("writer{wi} before write")).await;
                     let b = batch(variant, &rows);
                     let rs = row_strings(&b);
                     sim::log(format!("WRITE w{wi} variant={variant} rows={} ids={:?}", rows.len(), rows.iter().map(|r| r.id).take(5).collect::<Vec<_>>()));
-                    match ing.write(b).await {
+                    // the request runs as its own task, through the service's own ingest handlers (Arrow Flight
+                    // do_put / OTLP receiver) or directly; a client disconnect drops a handler's future
+                    let ing2 = ing.clone();
+                    let via = if cancel.is_some() { 1 + (wi as u32 + variant) % 2 } else { (wi as u32 + variant) % 3 };
+                    let req = tokio::spawn(async move {
+                        match via {
+                            1 => {
+                                let svc = cardinalsin::api::ingest::flight_ingest::FlightIngestService::new(ing2);
+                                let fd = cardinalsin::api::ingest::flight_ingest::batch_to_flight_data(&b)?;
+                                svc.process_stream(fd.into_iter()).await.map(|_| ())
+                            }
+                            2 => cardinalsin::api::ingest::otlp::OtlpReceiver::new(ing2).ingest(b).await,
+                            _ => ing2.write(b).await,
+                        }
+                    });
+                    if let Some(k) = cancel {
+                        let ab = req.abort_handle();
+                        tokio::spawn(async move {
+                            for _ in 0..k {
+                                sim::yield_point(0, "client about to disconnect").await;
+                            }
+                            if !ab.is_finished() {
+                                sim::log(format!("CANCEL request of w{wi}: client disconnected, handler future dropped"));
+                                sim::fault_fired("request_handler_dropped");
+                                ab.abort();
+                            }
+                        });
+                    }
+                    let res = match req.await {
+                        Ok(r) => r,
+                        Err(e) if e.is_cancelled() => {
+                            maybe.lock().unwrap().extend(rs);
+                            continue;
+                        }
+                        Err(_) => {
+                            sim::violation("C06/unexpected-error", "write() panicked".to_string());
+                            continue;
+                        }
+                    };
+                    match res {
                         Ok(()) => accepted.lock().unwrap().extend(rs),
                         Err(cardinalsin::Error::BufferFull) => {
                             sim::probe("buffer-full");
@@ -164,9 +209,13 @@ fn scen(spec: RunSpec) -> ScenFut {
         for h in hs {
             let _ = h.await;
         }
+        // a write whose client went away may still be running in the server (that is the point of detaching it);
+        // the verdict is taken at quiescence: no time passes while a request is parked, then 30 s go by
+        sim::set_cfg(|c| c.adv_pct = 0);
+        tokio::time::sleep(Duration::from_secs(30)).await;
         tok.cancel();
         let _ = timer.await;
-        tokio::time::sleep(Duration::from_millis(1)).await;
+        tokio::time::sleep(Duration::from_secs(30)).await;
         collector.abort();
         sim::faults_off();
 
@@ -217,7 +266,23 @@ fn scen(spec: RunSpec) -> ScenFut {
                 format!("{} rows were stored with the sign of a floating-point zero changed: accepted e.g. {:?}, stored e.g. {:?}", missing.len(), missing.iter().take(1).collect::<Vec<_>>(), extra.iter().take(1).collect::<Vec<_>>()),
             );
         }
-        let (missing, extra) = if zero_sign_only { (Vec::new(), Vec::new()) } else { diff_multiset(&want, &got) };
+        let (missing, mut extra) = if zero_sign_only { (Vec::new(), Vec::new()) } else { diff_multiset(&want, &got) };
+        // a dropped request's rows may be stored (at most once per dropped request) or not
+        {
+            let mut may = multiset(maybe.lock().unwrap().clone());
+            extra.retain(|e| {
+                let key = e.rsplit_once(" (x").map(|(k, _)| k.to_string()).unwrap_or_else(|| e.clone());
+                let n: u32 = e.rsplit_once(" (x").and_then(|(_, n)| n.trim_end_matches(')').parse().ok()).unwrap_or(1);
+                match may.get_mut(&key) {
+                    Some(m) if *m >= n => {
+                        *m -= n;
+                        sim::probe("dropped-request-was-stored-anyway");
+                        false
+                    }
+                    _ => true,
+                }
+            });
+        }
         if !missing.is_empty() {
             sim::violation("C06/accepted-row-missing", format!("{} accepted rows are not in any registered chunk, e.g. {:?}", missing.len(), missing.iter().take(2).collect::<Vec<_>>()));
         }
